@@ -40,6 +40,11 @@ def plan(tier, seed):
                          (S64, S32, 0, -1), (S64, S32, -4, -20), (S64, S8, 3, 0), (S64, U16, -8, -16), (U64, U32, 0, -16), (U64, U8, 5, 1),
                          (S32, S64, 0, -16), (S32, S16, 2, -2), (S16, S64, -4, -8), (U32, S64, 0, -4), (S8, S64, 1, -1), (U8, U64, 0, -3)]:
         regs.append('c12::ScaledMixed<%s, %d, %s, %d>::reg("%s:%d|%s:%d")' % (l, el, r, er, short(l), el, short(r), er))
+    # ++ / -- with non-zero exponents, radix 2 and 10
+    # (positive exponents, and 2^-E beyond int, are rejected at compile time)
+    for rep, e, r in [(S8, -3, 2), (U8, -7, 2), (S16, -8, 2), (S32, -16, 2), (U32, -30, 2), (S64, -30, 2), (S32, -30, 2), (S16, -14, 2),
+                      (S32, -2, 10), (S8, -1, 10), (U16, -3, 10), (S64, -9, 10), (S32, -9, 10), (S16, -4, 10), (U8, -2, 10)]:
+        regs.append('c12::IncDecScaled<%s, %d, %d>::reg("%s:%d:r%d")' % (rep, e, r, short(rep), e, r))
     cases = 60000 if quick else 600000
     units = [Unit('C12-gxx-%d' % i, 'gxx', 'props/C12.h', part, rc_cases=cases, enum_max=2 ** 22, chunk=3)
              for i, part in enumerate(split(regs, 16))]
